@@ -100,9 +100,8 @@ class C01(Monitor):
                 # the asset paid out: the one whose reserve fell
                 for i in (0, 1):
                     before, after = (r0, r1)[i], (q0, q1)[i]
-                    offer_before = (r0, r1)[1 - i]
-                    if after < before and after == 0 and offer_before > 0:
-                        bad = "ask reserve emptied: %d -> 0" % before
+                    if after < before and after == 0:
+                        bad = "ask reserve emptied: %d -> 0 (offer reserve before: %d)" % (before, (r0, r1)[1 - i])
             if bad:
                 if p.addr in window:
                     acc.known_hit("C01-window", case_of(w, st, pair=p.addr, detail=bad))
